@@ -256,6 +256,29 @@ example : OnlyRec (corePrim .byteslen s4 5) := by
   have := core_unsafe_in_range .byteslen s4 5 (by decide) (by decide) (by decide)
   simpa [Prim.unsafeArg] using this
 
+/-- the FULL core statement holds for the repaired core (the specification of the proposed patch) -/
+theorem core_repaired_only_recoverable (p : Prim) (s : St) (a : Int) : OnlyRec (corePrimRepaired p s a) := by
+  intro v hv
+  unfold corePrimRepaired at hv
+  split at hv
+  · split at hv
+    · simp at hv; subst hv; rfl
+    · simp at hv
+  · split at hv
+    · simp at hv; subst hv; rfl
+    · split at hv
+      · simp at hv; subst hv; rfl
+      · rename_i o hne
+        cases v with
+        | runtime w => exact absurd hv (hne w)
+        | _ => rfl
+  · split at hv
+    · simp at hv; subst hv; rfl
+    · rename_i o hne
+      cases v with
+      | runtime w => exact absurd hv (hne w)
+      | _ => rfl
+
 /-- Errorf is a no-op exactly under Options.Force (decode.go:372-376); Fatalf and IOPanic are not -/
 theorem errorf_force (s : St) (a : Int) :
     (corePrim .errorf s a = .ok s ↔ s.force = true) ∧ corePrim .fatalf s a = .panic .decoderError ∧
